@@ -607,7 +607,7 @@ def _compress_case(g):
     Schur complement of the right part has rank r2 in {64, 128, 129, ...} >= one word, rows below r1 + r2 exist, and
     width * nrows exceeds the PLE cut-off REC_WORDS so that the block recursion is entered"""
     r = g.rng
-    w = r.choice([3, 4, 5, 10])
+    w = r.choice([3, 3, 4, 4, 5, 5, 10])
     n = 64 * w
     n1 = 64 * ((w + 1) // 2)
     nR = n - n1
